@@ -75,6 +75,45 @@ pub fn expected(a: &str, b: &str) -> Vec<Emit> {
 }
 
 const OPS_BODY: &str = "vh_emit_str(X .. Y)\nvh_emit_bool(X == Y)\nvh_emit_bool(X != Y)\nvh_emit_bool(X < Y)\nvh_emit_bool(X <= Y)\nvh_emit_bool(X > Y)\nvh_emit_bool(X >= Y)";
+const OPS: [&str; 7] = ["..", "==", "!=", "<", "<=", ">", ">="];
+const PROBE: (&str, &str) = ("pq", "p");
+
+fn model_op(op: usize, a: &str, b: &str) -> Emit {
+    let (x, y) = (a.as_bytes(), b.as_bytes());
+    match op {
+        0 => Emit::Str(format!("{a}{b}")),
+        1 => Emit::Bool(x == y),
+        2 => Emit::Bool(x != y),
+        3 => Emit::Bool(x < y),
+        4 => Emit::Bool(x <= y),
+        5 => Emit::Bool(x > y),
+        _ => Emit::Bool(x >= y),
+    }
+}
+fn op_line(op: usize, x: &str, y: &str) -> String {
+    format!("{}({x} {} {y})", if op == 0 { "vh_emit_str" } else { "vh_emit_bool" }, OPS[op])
+}
+/// every operation on (X, Y) is followed by a different operation on the fixed prefix-related probe pair, so
+/// progress state left behind by one string instruction shows in the next one (which has other operands)
+fn probed_body(x: &str, y: &str) -> String {
+    let mut lines = vec![];
+    for i in 0..7 {
+        lines.push(op_line(i, x, y));
+        let (p, q) = if i % 2 == 0 { PROBE } else { (PROBE.1, PROBE.0) };
+        lines.push(op_line((i + 3) % 7, &lit(p), &lit(q)));
+    }
+    lines.join("\n")
+}
+pub fn expected_probed(a: &str, b: &str) -> Vec<Emit> {
+    let mut v = vec![];
+    for i in 0..7 {
+        v.push(model_op(i, a, b));
+        let (p, q) = if i % 2 == 0 { PROBE } else { (PROBE.1, PROBE.0) };
+        v.push(model_op((i + 3) % 7, p, q));
+    }
+    v
+}
+
 const FORMS: [&str; 5] = ["var∘var", "lit∘lit", "var∘lit", "lit∘var", "fn∘fn"];
 
 fn case_for(a: &str, b: &str, form: usize) -> Case {
@@ -91,7 +130,7 @@ fn case_for(a: &str, b: &str, form: usize) -> Case {
             vec![Input::Str(a.into()), Input::Str(b.into())],
         ),
     };
-    let body = format!("{pre}{}", OPS_BODY.replace('X', &x).replace('Y', &y));
+    let body = format!("{pre}{}", probed_body(&x, &y));
     let mut c = Case::new(name, body);
     if form == 4 {
         c = c.decl("fn c17_id(s: string) -> string = s");
@@ -139,7 +178,7 @@ impl Prop for C17 {
             for a in &ss {
                 for b in &ss {
                     cases.push(case_for(a, b, form));
-                    exps.push(expected(a, b));
+                    exps.push(expected_probed(a, b));
                 }
             }
             run_cases(out, 0, &cases, 200, COpts::default(), ROpts { budget, max_steps: 200_000 }, |out, k, c, r| {
@@ -323,7 +362,7 @@ impl Prop for C17 {
         let n = strings().len();
         format!(
             "all {n}x{n} ordered pairs over the structured string set (empty, prefix/extension pairs, first difference at first/middle/last byte of a 40-byte string, NUL byte, 2- and 3-byte UTF-8), each evaluating `..` and the six comparisons: \
-             (a) in {} operand forms under every uniform budget in {:?}; (b) var∘var form under ALL embedder executions with <= 1 deviation for {} left operands; \
+             (a) in {} operand forms under every uniform budget in {:?}, each of the seven operations followed by a different operation on a fixed prefix-related probe pair (so state left behind by one string instruction shows in the next); (b) var∘var form under ALL embedder executions with <= 1 deviation for {} left operands; \
              (c) var∘var form with a collection cycle started at EVERY instruction boundary and completed after {:?} further steps (real collector via hooks, quarantine on). Oracle: Rust byte-wise concatenation and ordering.",
             tier.pick(3, FORMS.len()),
             BUDGETS,
